@@ -69,6 +69,7 @@ type GenomeCfg struct {
 	ShuffleMods  bool // list the modules in a generated order (control-node ids and innovation numbers not ascending)
 	Big          bool // one genome in twenty-five is large (up to 40 hidden nodes and 300 genes)
 	LargeNumbers bool // one genome in ten carries node ids up to 2^31-1 and innovation numbers up to 2^63-2
+	ModLinkW     bool // every second module is assembled in code: its links carry generated weights and recurrence flags
 }
 
 // genGenomeSpec is G-direct: a hand-built well-formed genome.
@@ -393,6 +394,12 @@ func drawGenomeSpec(t *rapid.T, cfg GenomeCfg) GenomeSpec {
 				nOuts = rapid.IntRange(1, imin(3, len(cand))).Draw(t, "module outs")
 			}
 			ms.Outs = append(ms.Outs, cand[:nOuts]...)
+			if cfg.ModLinkW && rapid.Bool().Draw(t, "module assembled in code") {
+				for k := 0; k < len(ms.Ins)+len(ms.Outs); k++ {
+					ms.LinkW = append(ms.LinkW, rapid.SampledFrom([]float64{1, 0.5, 2, -1.5, 0.25, 0, 1e10}).Draw(t, "module link weight"))
+					ms.LinkRec = append(ms.LinkRec, rapid.IntRange(0, 3).Draw(t, "module link recurrent") == 0)
+				}
+			}
 			s.Modules = append(s.Modules, ms)
 		}
 		if cfg.ShuffleMods && len(s.Modules) > 1 {
